@@ -664,6 +664,77 @@ def j_obs_game(o):
     return j_gobs(o)
 
 
+# ----- histories: the answer of PTN.parse must be a function of the TEXT, whatever happened before ----------
+MUTATIONS = ["truncate", "append", "retag", "clear"]
+
+
+def _fresh_copy(text):
+    """an equal str that is not the same object"""
+    return (text + "x")[:-1]
+
+
+def _mutate(obj, how, rng_val):
+    """edit a returned PTN record in place, the way a caller extending / trimming a game would"""
+    import tak
+    try:
+        if how == "truncate":
+            del obj.moves[rng_val % (len(obj.moves) + 1):]
+        elif how == "append":
+            obj.moves.append(tak.Move(rng_val % 3, (rng_val // 3) % 3))
+        elif how == "retag":
+            obj.tags["Size"] = "6"
+            obj.tags["Edited"] = "yes"
+        elif how == "clear":
+            obj.tags.clear()
+            del obj.moves[:]
+        return True
+    except Exception:  # noqa  (an immutable record cannot be edited: nothing to test)
+        return False
+
+
+def run_history(ptn, ops):
+    """ops: list of ["parse", text] | ["parse_copy", text] | ["mutate", how, n]; the observation of the LAST parse"""
+    last_obj, last_obs = None, None
+    for op in ops:
+        if op[0] in ("parse", "parse_copy"):
+            text = op[1] if op[0] == "parse" else _fresh_copy(op[1])
+            try:
+                last_obj = ptn.PTN.parse(text)
+            except Exception:  # noqa
+                last_obj = None
+            last_obs = _observe_obj(ptn, last_obj, text)
+        elif op[0] == "mutate" and last_obj is not None:
+            _mutate(last_obj, op[1], op[2])
+    return last_obs
+
+
+def _observe_obj(ptn, obj, text):
+    import tak
+    if obj is None:
+        return observe_game(ptn, text)          # an exception: observe it again the ordinary way
+    g = obj
+    if not (isinstance(g.tags, dict) and isinstance(g.moves, list) and all(isinstance(m, tak.Move) for m in g.moves)
+            and all(isinstance(k, str) and isinstance(v, str) for k, v in g.tags.items())):
+        return ("GC", "bad-value")
+    return ("GO", list(g.tags.items()), list(g.moves))
+
+
+def _histories(run, texts):
+    """histories over parseable texts: parse - edit the returned record - parse again (same str / equal copy);
+    parse(a) parse(b) parse(a); parse(a) - edit - parse(b)"""
+    rng = run.rng
+    out = []
+    for i, a in enumerate(texts):
+        b = texts[(i + 1) % len(texts)]
+        how = MUTATIONS[i % len(MUTATIONS)]
+        n = rng.randint(0, 9)
+        out.append(("edit-then-same", [["parse", a], ["mutate", how, n], ["parse", a]], a))
+        out.append(("edit-then-copy", [["parse", a], ["mutate", how, n], ["parse_copy", a]], a))
+        out.append(("a-b-a", [["parse", a], ["parse", b], ["parse_copy", a]], a))
+        out.append(("edit-a-then-b", [["parse", a], ["mutate", how, n], ["parse", b]], b))
+    return out
+
+
 # --------------------------------------------------------------------------
 # reference oracle for games (independent of the implementation and of the Coq model)
 # --------------------------------------------------------------------------
@@ -936,6 +1007,25 @@ def correspondence(run):
                           {"clause": "parsing a PTN game returns its tags and exactly its moves in order whatever decoration surrounds them",
                            "input": {"text": t, "kind": k, "expected": {"tags": e["tags"], "moves": e["moves"], "rendered_from": e["rendered_from"]}}, "impl": j_gobs(o)})
             shown += 1
+    # 5. histories: PTN.parse as a function of the text (a cache or a shared default must not leak an earlier answer)
+    base = [t for k, t, o, e in texts if k == "rendered" and o[0] == "GO" and len(o[2]) >= 3][: (40 if run.quick else 400)]
+    hist = _histories(run, base) if len(base) >= 2 else []
+    hcases = [(kind, final, run_history(ptn, ops), {"history": ops}) for kind, ops, final in hist]
+    ch = _game_cases(run, "history", hcases, GAME_CHECK)
+    failing_h, shard_fail_h, nsh = _run(ch) if hcases else ([], [], 0)
+    run.oblige(f"correspondence:history ({nsh} shards)", not shard_fail_h, str(shard_fail_h)[:1500])
+    run.count(len(hcases), len(hcases), "histories on one process: parse(a), edit the returned record in place (truncate / append to "
+              "moves, change / clear tags), parse(a) again with the same str and with an equal copy; parse(a) parse(b) parse(a); "
+              "parse(a), edit, parse(b) - the LAST answer compared with the model's parse of its text",
+              [{"history": hist[0][1]}] if hist else [], {"histories": len(hcases)}, label="history")
+    for meta in failing_h[:6]:
+        ops = meta["expected"]["history"]
+        run.violation("history:" + core.hashlib.sha256(json.dumps(ops).encode()).hexdigest()[:16],
+                      {"clause": "parsing a PTN game returns its tags and exactly its moves in order - as a function of the text, "
+                                 "whatever was parsed or done to an earlier result before",
+                       "input": {"history": ops, "text": meta["text"], "kind": meta["kind"]}, "impl_last_answer": meta["impl"],
+                       "fresh_process_answer": "see replay", "reference": _jref_game(ref_game(meta["text"])),
+                       "model_view": ch.model_view(ch.terms[ch.metas.index(meta)])})
     run.extra["unspecified_skipped"] = unspec_total
 
 
@@ -983,6 +1073,15 @@ def search(run, broken):
                           {"clause": "PTN.parse vs the reference reading", "input": {"text": t, "kind": k}, "impl": j_gobs(o),
                            "reference": _jref_game(ref_game(t))})
             return True
+    # histories against the reference reading
+    texts = [t for k, t, e in _game_texts(run) if k == "rendered"][:40]
+    for kind, ops, final in (_histories(run, texts) if len(texts) >= 2 else []):
+        o = run_history(ptn, ops)
+        if game_vs_ref(o, ref_game(final)):
+            run.violation("history:" + core.hashlib.sha256(json.dumps(ops).encode()).hexdigest()[:16],
+                          {"clause": "PTN.parse as a function of the text", "input": {"history": ops, "text": final, "kind": kind},
+                           "impl_last_answer": j_gobs(o), "reference": _jref_game(ref_game(final))})
+            return True
     return found
 
 
@@ -990,6 +1089,11 @@ def replay(run, rp):
     core.setup_impl()
     from tak.ptn import ptn
     inp = rp.get("input", {})
+    if "history" in inp:
+        o = run_history(ptn, inp["history"])
+        cs = _game_cases(run, "replay", [(inp.get("kind", "history"), inp["text"], o, None)], GAME_CHECK)
+        failing, shard_fail, _ = _run(cs)
+        return {"violates": bool(failing or shard_fail), "impl_last_answer": j_gobs(o), "model": cs.model_view(cs.terms[0])}
     if "text" in inp and rp.get("key", "").startswith("game:"):
         exp0 = inp.get("expected") or {}
         if exp0.get("rendered_from"):
